@@ -40,7 +40,9 @@ def f1(x):
 
 
 def f1_vec(x):
-    return np.array([math.sin(3 * x), x * x, 1.0 if x > 0.1 else -1.0])
+    # components with different offsets and ranges: the largest per-component range (2) differs from the range over all
+    # components together (about 13)
+    return np.array([math.sin(3 * x), 10.0 + x * x, (1.0 if x > 0.1 else -1.0) - 2.0])
 
 
 def f2(xy):
